@@ -85,6 +85,20 @@ def oracle(ctx, seeds=None):
             s8.solve(f0, cfl, [t_first], stop=sd)
             out['reused_stop'] = (s8.nit(), [float(q.time) for q in mk().solve(f0, cfl, [float(a.time) * 0.999 + 0.001 * float(f0.time)], stop=sd)])
             out['fresh_stop'] = (None, [float(q.time) for q in mk().solve(f0, cfl, [float(a.time) * 0.999 + 0.001 * float(f0.time)], stop={'maxit': N + M})])
+            # the SAME solver object first serves a short run from another field with the local-time-step directive and its own
+            # residual monitor (frequency larger than that run), then the plain run: directives and monitor values do not stick
+            s9 = mk()
+            m9a = {'residual': {'type': 'residual', 'frequency': 50}}
+            s9.solve(other, cfl, stop={'maxit': 2}, monitors=m9a, directives={'dtlocal': True})
+            m9 = {'residual': {'type': 'residual', 'frequency': int(rng.integers(1, 3))}}
+            out['after_directives'] = s9.solve(f0, cfl, stop={'maxit': N + M}, monitors=m9)[-1]
+            out['m9'] = (m9['residual']['frequency'], list(m9['residual']['output']._it), list(m9['residual']['output']._value))
+            # local time steps: extra save times do not change the trajectory either
+            sA = mk(); out['local_plain'] = sA.solve(f0, cfl, stop={'maxit': N + M}, directives={'dtlocal': True})[-1]
+            tl_ = float(out['local_plain'].time)
+            if np.isfinite(tl_) and tl_ > f0.time and not out['local_plain'].isnan():
+                tsl = sorted(float(f0.time + x) for x in rng.uniform(0, tl_ - f0.time, 4))
+                sB = mk(); sB.solve(f0, cfl, tsl + [tl_ * 2 + 1.0], stop={'maxit': N + M}, directives={'dtlocal': True}); out['local_saves'] = sB.Qn.copy()
             # split run
             s4 = mk()
             mid = s4.solve(f0, cfl, stop={'maxit': N})[-1]
@@ -115,6 +129,22 @@ def oracle(ctx, seeds=None):
         if a.isnan() or out.get('left_admissible_set'):
             res.count('skipped-nan'); continue
         tolerant = name in ('implicit', 'cranknicolson', 'gear')   # not relevant for bitwise clauses
+        if not eq(a, out['after_directives']):
+            res.fail(name + ':directives-stick', "a plain solve on a solver object that first served a run with directives={'dtlocal': True} differs from the solve on a fresh object (time %r vs %r)" %
+                     (out['after_directives'].time, a.time), rp)
+        else:
+            fr9, its9, val9 = out['m9']
+            traj9 = out['traj']
+            for k9, v9 in zip(its9, val9):
+                if k9 < len(traj9):
+                    rr = [np.asarray(x, dtype=float) for x in disc.rhs(traj9[k9].copy())]
+                    ref9 = float(disc.all_L2average(rr))
+                    if not abs(v9 - ref9) <= 1e-12 * (abs(ref9) + 1e-300):
+                        res.fail(name + ':residual-monitor-value', "residual monitor entry at iteration %d is %r, the residual norm of the trajectory state is %r (solver object used before from another field)" % (k9, v9, ref9), rp)
+                        break
+        if 'local_saves' in out and not eq(out['local_plain'], out['local_saves']):
+            res.fail(name + ':saves-change-local-dt-trajectory', "with the local-time-step directive, requesting intermediate snapshots changes the final state (time %r vs %r)" %
+                     (out['local_saves'].time, out['local_plain'].time), rp)
         if out['reused_stop'][1] != out['fresh_stop'][1]:
             res.fail(name + ':depends-on-earlier-call-arguments', "a solve given a stop dictionary that already served another call returns snapshots at %r, with a fresh equal dictionary %r" %
                      (out['reused_stop'][1], out['fresh_stop'][1]), rp)
